@@ -284,6 +284,7 @@ fn run_wasm(case: &str, wasm: &[u8], edit: Edit, names_on: bool, stats: &mut Sta
         Err(p) => {
             let key = if p.contains("get_global_index") { "C02:gc-then-emit-panics-missing-global" } else { "C02:gc-then-emit-panic" };
             fails.push((key.into(), format!("GC + emit (edit {:?}) panicked: {}", edit, &p[..p.len().min(200)].replace('\n', " "))));
+            fails.push(("C06:gc-then-emit-panics".into(), format!("GC + emit (edit {:?}) panicked, no module is produced: {}", edit, &p[..p.len().min(200)].replace('\n', " "))));
             if edit == Edit::None {
                 // the model must predict the panic as a failed lookup
                 out::corr(case, true, &format!("gc {}", modtext::module_text(&a, false, names_on)), "panic");
@@ -295,6 +296,7 @@ fn run_wasm(case: &str, wasm: &[u8], edit: Edit, names_on: bool, stats: &mut Sta
     };
     if let Err(e) = decode::validate(&bytes, decode::walrus_features(false)) {
         fails.push(("C02:invalid-output-after-gc".into(), format!("GC + emit (edit {:?}) yields an invalid module: {}", edit, e)));
+        fails.push(("C06:invalid-output-after-gc".into(), format!("GC + emit (edit {:?}) yields an invalid module: {}", edit, e)));
     }
     let b = decode::decode(&bytes).expect("decode output");
     stats.cases += 1;
